@@ -256,6 +256,13 @@ func filterFunc(c *chk.Ctx) *ssa.Function {
 				if b, isB := call.Call.Value.(*ssa.Builtin); isB && b.Name() == "append" && isJmessagesType(c, call.Type()) {
 					hasAppend = true
 				}
+				// (the look-up through a table type's method)
+				if _, isW := wrapperCall(c, call, c.M.SCall, "lookup", "lookupok", "has"); isW {
+					hasLookup = true
+				}
+				if _, isTake := takeHelper(c, call.Call.StaticCallee(), c.M.SCall, ownerLock(c, "server")); isTake {
+					hasLookup = true
+				}
 			}
 		})
 		if hasLookup && hasAppend && f.Signature.Results().Len() == 1 && isJmessagesType(c, f.Signature.Results().At(0).Type()) {
@@ -351,9 +358,21 @@ func ruleReplyFilter(c *chk.Ctx) {
 	// is reached only on the ¬isRequestOrNotification edge (client and server number their calls
 	// independently, so a client call may carry the id of a pending callback)
 	nlk := 0
-	c.P.ExtInstrs(ff, func(ins ssa.Instruction) {
-		lk, ok := ins.(*ssa.Lookup)
-		if !ok || !chk.LoadsField(lk.X, c.M.SCall) {
+	c.P.ExtInstrs(ff, func(lk ssa.Instruction) {
+		isSite := false
+		if l, ok := lk.(*ssa.Lookup); ok && chk.LoadsField(l.X, c.M.SCall) {
+			isSite = true
+		}
+		// (or the call of a table type's look-up method)
+		if call, ok := lk.(*ssa.Call); ok {
+			if _, isW := wrapperCall(c, call, c.M.SCall, "lookup", "lookupok", "has"); isW {
+				isSite = true
+			}
+			if _, isTake := takeHelper(c, call.Call.StaticCallee(), c.M.SCall, ownerLock(c, "server")); isTake {
+				isSite = true
+			}
+		}
+		if !isSite {
 			return
 		}
 		nlk++
